@@ -3,6 +3,7 @@ import Cinco.Drv.FieldWire
 import Cinco.Drv.CfgWire
 import Cinco.Drv.ProxyWire
 import Cinco.Drv.StubWire
+import Cinco.Drv.HeapWire
 import Cinco.TreeIO.Include
 import Cinco.Format.Xml
 import Cinco.Format.Yaml
@@ -268,6 +269,7 @@ def handle (cmd : String) (j : Json) : R Json := do
   | "env.name" => envNameCmd j
   | "paths" => pathsCmd j
   | "stub.gen" => stubGen j
+  | "heap.run" => heapRun j
   | "list.run" => listRun j
   | "dict.run" => dictRun j
   | "hash" => do
